@@ -71,6 +71,16 @@ func classify(a, b Schema) string {
 		if bt == nil {
 			continue
 		}
+		if strings.Join(t.AutoIncCols, ",") != strings.Join(bt.AutoIncCols, ",") {
+			set["autoinc-change"] = true
+		}
+		for i, k1 := range t.Checks {
+			for j, k2 := range t.Checks {
+				if i < j && mayWrap(k1.Expr) == mayWrap(k2.Expr) {
+					set["dup-check-expr"] = true
+				}
+			}
+		}
 		for _, u := range t.Uniques {
 			kept := false
 			for _, i := range bt.Idx {
@@ -170,6 +180,23 @@ func (g *G) witness(class string) (Schema, Schema, bool) {
 					break
 				}
 			}
+		case "autoinc-change":
+			at := a.table(t.Name)
+			if len(at.AutoIncCols) == 1 && at.PK != nil && len(at.PK.Parts) == 1 {
+				t.AutoIncCols = nil
+				ok = true
+			}
+		case "dup-check-expr":
+			at := a.table(t.Name)
+			for _, c := range at.Cols {
+				if c.Gen == nil && isNumTy(c.Type) && len(at.Checks) == len(t.Checks) {
+					e := "`" + c.Name + "` <> 3"
+					at.Checks = append(at.Checks, Check{Expr: e}, Check{Name: "ck_dup", Expr: e})
+					t.Checks = append(t.Checks, Check{Expr: e})
+					ok = true
+					break
+				}
+			}
 		case "drop-inline-unique":
 			at := a.table(t.Name)
 			cols := storedCols(at)
@@ -179,11 +206,11 @@ func (g *G) witness(class string) (Schema, Schema, bool) {
 				ok = true
 			}
 		}
-		if ok && classify(a, b) == class && classify(Schema{}, a) == "none" && validSQLite(a) == nil {
+		if ok && classify(a, b) == class && validSQLite(a) == nil {
 			return a, b, true
 		}
 	}
 	return Schema{}, Schema{}, false
 }
 
-var knownClasses = []string{"two-unnamed-fks", "gen-col-name-prefix", "pk-order", "pk-desc", "raw-default-parens", "check-parens", "drop-inline-unique"}
+var knownClasses = []string{"autoinc-change", "dup-check-expr", "two-unnamed-fks", "gen-col-name-prefix", "pk-order", "pk-desc", "raw-default-parens", "check-parens", "drop-inline-unique"}
